@@ -273,10 +273,10 @@ h_sds_slabs(void)
             sum += slab_diffs;
     }
     uint32 r = diff_sds(1, 2, 5, 5, &g_o);
-    H4V_CHECK(g_ad_calls == nrows && g_ad_total == (uint32)nrows * 1024u * 1024u, "C19 diff_sds compares every element of the dataset (one slab per row)");
-    H4V_CHECK(!(g_slab_diffs[0] > 0) || r > 0, "C19 a difference in the first hyperslab is a difference of the datasets");
-    H4V_CHECK(r == sum, "C19 diff_sds returns the sum of the per-hyperslab difference counts");
-    H4V_COVER(g_ad_calls == 3, "diff_sds three slabs");
+    H4V_CHECK(g_o.err_stat != 0 || (g_ad_calls == nrows && g_ad_total == (uint32)nrows * 1024u * 1024u), "C19 diff_sds compares every element of the dataset (one slab per row)");
+    H4V_CHECK(!(g_slab_diffs[0] > 0 && g_o.err_stat == 0) || r > 0, "C19 a difference in the first hyperslab is a difference of the datasets");
+    H4V_CHECK(g_o.err_stat != 0 || r == sum, "C19 diff_sds returns the sum of the per-hyperslab difference counts");
+    H4V_COVER(g_ad_calls == 3 && g_o.err_stat == 0, "diff_sds three slabs");
     H4V_CANARY("sds_slabs end");
 }
 
@@ -306,10 +306,10 @@ h_gr_comps(void)
             differ++;
     }
     uint32 r = diff_gr(1, 2, 7, 7, &g_o);
-    H4V_CHECK(!(differ > 0) || r > 0, "C19 diff_gr flags a change of any single component value of the image");
+    H4V_CHECK(!(differ > 0 && g_o.err_stat == 0) || r > 0, "C19 diff_gr flags a change of any single component value of the image");
     H4V_CHECK(differ > 0 || r == 0, "C19 diff_gr reports no difference for equal images");
     H4V_CHECK(g_ad_calls == 0 || g_ad_cnt[0] == (uint32)nvals, "C19 diff_gr compares nelms * ncomps values");
-    H4V_COVER(ncomps == 3 && differ == 1, "diff_gr one value of a 3-component image differs");
+    H4V_COVER(ncomps == 3 && differ == 1 && g_o.err_stat == 0, "diff_gr one value of a 3-component image differs");
     H4V_CANARY("gr_comps end");
 }
 
